@@ -148,6 +148,18 @@ CLAIMED["C17"] = dict(
          "disjoint variables/edges (overlapping keys have no defined meaning).",
     design_ref="DESIGN.md §4 C17")
 
+CLAIMED["C18"] = dict(
+    technique="Hypothesis-generated scalar models with 1-20 parameters; cross-consistency of all emitted auto-07p "
+              "artefacts plus differential of the f2py-compiled func/stpnt against the reference interpreter and "
+              "central differences",
+    text="parnames/unames/NDIM/NPAR of every c.<scenario> file, the forwarding call, STPNT lines and DFDP columns must "
+         "use one slot per parameter (declaration order, distinct, outside 11..14); the compiled stpnt must deliver the "
+         "declared values, func must equal the model at perturbed named parameter values, DFDU/DFDP must equal central "
+         "differences of func.",
+    note="auto-07p itself is not installed (no continuation run); f2py build per case; literals not representable in "
+         "float32 are a listed finding (single precision constants in generated Fortran).",
+    design_ref="DESIGN.md §4 C18")
+
 NOT_YET = {}
 
 
